@@ -124,12 +124,6 @@ Theorem C07_qualifier_first_param_refuted :
                                false false] [])).
 Proof. vm_compute. discriminate. Qed.
 
-(* form feed between tokens: white space for the C parser only *)
-Theorem C07_whitespace_refuted :
-  let t := TE [SM Msigned; SB Bchar] (D [] None None [] []) in
-  c_typeof 1200 nog (render t [[]; [12%N]]) <> py_typeof nog t [[]; [12%N]].
-Proof. vm_compute. discriminate. Qed.
-
 (* ---------------------------------------------------------------- non-vacuity *)
 (* "  const unsigned long int*const( *volatile[0x10])[3] ": the hypotheses of C07_agree_partial hold and
    both sides are the same accepted type *)
